@@ -13,7 +13,7 @@
 import os
 import struct
 
-from . import install, vsocket
+from . import install, vsocket, vthreading
 from . import sched as S
 
 install.install()
@@ -510,3 +510,30 @@ def sched_pair(on_recv_ready=None):
     """-> (client_sock, server_sock) : VSocks dressed up as channels."""
     a, b = vsocket.pair("c", "s")
     return _dress(a, "vc", on_recv_ready), _dress(b, "vs")
+
+
+class FairLock(vthreading.Lock):
+    """Lock for busy-wait loops (`SFTPFile._async_response` spins on `_prefetch_lock` until the
+    prefetch thread has registered the request).  The cooperative scheduler's default policy keeps
+    the running thread running, so such a spin would never end; a real OS pre-empts the spinner.
+    After `streak` consecutive acquisitions by the same thread the acquirer sleeps 1 virtual ms,
+    which lets every other runnable thread proceed first (a fair scheduler, nothing more)."""
+
+    def __init__(self, streak=4):
+        vthreading.Lock.__init__(self)
+        self._fl_last = None
+        self._fl_n = 0
+        self._fl_streak = streak
+
+    def acquire(self, blocking=True, timeout=-1):
+        me = self._me()
+        if self._fl_last == me:
+            self._fl_n += 1
+        else:
+            self._fl_last, self._fl_n = me, 1
+        if self._fl_n > self._fl_streak:
+            s = S.CUR
+            if s is not None and not s.aborting:
+                self._fl_n = 0
+                s.block(lambda: False, 0.001, why="spin-yield")
+        return vthreading.Lock.acquire(self, blocking, timeout)
